@@ -430,7 +430,9 @@ class Interp:
             if "summary" in cfgd:
                 kw["summary_generator"] = lambda r: cfgd["summary"]
             cfg = C.ParallelConfig(**kw)
-        return self.call(path, "par", lambda: ctx.parallel(fns, name=path, config=cfg), chain=chain)
+        br = self.call(path, "par", lambda: ctx.parallel(fns, name=path, config=cfg), chain=chain)
+        self._report_batch(path, br)
+        return br
 
     def do_map(self, ctx, node, path):
         cfgd = node.get("cfg") or {}
@@ -452,7 +454,17 @@ class Interp:
             if "summary" in cfgd:
                 kw["summary_generator"] = lambda r: cfgd["summary"]
             cfg = C.MapConfig(**kw)
-        return self.call(path, "map", lambda: ctx.map(items, fn, name=path, config=cfg), chain=chain)
+        br = self.call(path, "map", lambda: ctx.map(items, fn, name=path, config=cfg), chain=chain)
+        self._report_batch(path, br)
+        return br
+
+    def _report_batch(self, path, br):
+        try:
+            items = [(i.index, getattr(i.status, "value", str(i.status)), canon(i.result) if len(str(i.result)) < 3000 else "<big>",
+                      None if i.error is None else (i.error.type, i.error.message)) for i in br.all]
+            self.rt.rpc("batch", path=path, items=items, reason=getattr(br.completion_reason, "value", str(br.completion_reason)))
+        except Exception as e:  # noqa: BLE001
+            self.rt.rpc("batch", path=path, items=None, reason="unreadable:%s" % type(e).__name__)
 
     # ------------------------------------------------------------------ handler
     def user_fn(self, event, ctx):
